@@ -21,8 +21,9 @@ type item struct {
 	Kind    string `json:"kind"`    // html | text | png
 	Enc     string `json:"enc"`     // identity | gzip
 	Framing string `json:"framing"` // cl | chunked
-	Status  string `json:"status"`  // 200 | 404 | 301 | 500 | 429 | 403cf
+	Status  string `json:"status"`  // 200 | 204 | 404 | 301 | 500 | 429 | 403cf
 	Path    string `json:"path"`
+	Policy  bool   `json:"policy,omitempty"` // element of the discard-policy grid (crawled under non-default --warc-discard-status lists)
 }
 
 func (it item) class() string { return fmt.Sprintf("%s-%s-%s-%s", it.Status, it.Kind, it.Enc, it.Size) }
@@ -88,6 +89,8 @@ func statusCode(s string) int {
 	switch s {
 	case "200":
 		return 200
+	case "204":
+		return 204
 	case "404":
 		return 404
 	case "301":
@@ -187,10 +190,36 @@ func fullGrid() []item {
 	return out
 }
 
+// policyLists are the --warc-discard-status lists of the policy cases: codes below 400 included (the default
+// list [429] is what every other case runs with).
+var policyLists = [][]int{{301, 204, 429}, {200}}
+
+// policyItems is the small grid crawled under each policy list: every status class, a small and a large body.
+func policyItems(start int) []item {
+	var out []item
+	add := func(st, kind, enc, framing, size string) {
+		it := item{ID: start + len(out), Size: size, Kind: kind, Enc: enc, Framing: framing, Status: st, Policy: true}
+		if st != "204" {
+			it.N = payloadLen(it)
+		}
+		it.Path = fmt.Sprintf("/p/%04d-%s-%s-%s-%s-%s", it.ID, st, kind, enc, strings.NewReplacer("=", "", "+", "p").Replace(size), framing)
+		out = append(out, it)
+	}
+	for _, st := range []string{"200", "301", "404", "500", "429", "403cf"} {
+		add(st, "html", "identity", "cl", "2049")
+		add(st, "png", "gzip", "chunked", "2MiB+1")
+	}
+	add("204", "text", "identity", "cl", "0")
+	return out
+}
+
 // program installs the routes of an item on the origin; it returns the number
 // of exchanges a complete crawl of the item produces.
 func program(o *e2e.Origin, it item) int {
 	switch it.Status {
+	case "204":
+		o.Handle(it.Path, e2e.Resp{Status: 204})
+		return 1
 	case "200", "404":
 		o.Handle(it.Path, response(it, statusCode(it.Status), it.N))
 		return 1
